@@ -331,6 +331,20 @@ func (d *Datastore) lowlevelTransactionSet(ctx context.Context, transaction *typ
 		delSl := deletesOwner.StringSlice()
 		log.Debugf("Deletes Owner: %s \n%s", intent.GetName(), strings.Join(delSl, "\n"))
 
+		// the entries of the stored version live under the priority of that version. If it differs from the
+		// priority of the request (re-prioritised intent, delete carrying another priority) all of them
+		// are superseded and need to be removed under the old priority.
+		if old := transaction.GetOldIntent(intent.GetName()); old != nil && len(old.GetUpdates()) > 0 && old.GetPriority() != intent.GetPriority() {
+			err = d.cacheClient.Modify(ctx, d.Name(), &cache.Opts{
+				Store:    cachepb.Store_INTENDED,
+				Owner:    intent.GetName(),
+				Priority: old.GetPriority(),
+			}, old.GetPathSet().GetPaths().ToStringSlice(), nil)
+			if err != nil {
+				return nil, fmt.Errorf("failed updating the intended store for %s: %w", d.Name(), err)
+			}
+		}
+
 		// modify intended store per intent
 		err = d.cacheClient.Modify(ctx, d.Name(), &cache.Opts{
 			Store:    cachepb.Store_INTENDED,
